@@ -373,6 +373,8 @@ def eval_c16(batches, tier, seed, known, info):
         # `config` file that holds no YAML document at all (empty / comments only / blank lines): same result
         dual_only = copy.deepcopy(b['case'])
         dual_only['yaml'] = {k: v for k, v in dual_only['yaml'].items() if k in allk}
+        for f in dual_only['request'].get('deps') or []:
+            f.pop('goPackage', None)      # import_path_overrides is not a dual option: no separate Go packages in this comparison
         dbase = run_variant(info, 'c16dualbase', dual_only)
         for st in ('blank:empty', 'blank:comments', 'blank:lines'):
             c = move_to_cli(dual_only, set(allk), rnd, False)
@@ -807,7 +809,13 @@ def eval_c11(batches, tier, seed, known, info):
             o = rnd.choice(occ)
             form = rnd.choice(['path', 'typeName'])
             deep = [x for x in occ if x[0] in EMBED_BELOW_ROOT]
-            if deep and k % 4 == 1:
+            depnames = {m['name'] for f in b['case']['request'].get('deps') or [] for m in f['messages']}
+            dep_occ = [x for x in occ if x[3]['name'] in depnames]
+            if dep_occ and k % 4 == 3:
+                # directed: a field of a message declared in a dependency file (another Go package), addressed as Message.Field
+                o, form = rnd.choice(dep_occ), 'typeName'
+                nkey['dep_message_typeName'] = nkey.get('dep_message_typeName', 0) + 1
+            elif deep and k % 4 == 1:
                 # directed: a field of an embedded message in a nested occurrence, addressed by its full path
                 o, form = rnd.choice(deep), 'path'
                 nkey['embedded_below_root'] = nkey.get('embedded_below_root', 0) + 1
